@@ -806,12 +806,106 @@ fn run_child_parent(rep: &Report, budget: &Budget, thorough: bool) {
 // ------------------------------------------------------------------------------------ driver
 
 pub fn meta(rep: &mut Report) {
-    rep.rule = "(ii)(iv) the C01 term space (T1/T2(/T3), stages listed under coverage.stages): per term Simplifier(sparse) result r; same instance and fresh instances (sparse, dense) must map r to r; Simplifier(dense) in an identically built context and simplify_single_expression must return the same reference r. (iii) histories: all ordered sequences of <= 2 (quick) / 3 (thorough) terms from a pool (every T1 term over two 4-bit symbols without literals and div/rem, plus T2 terms and rule-bearing combinations that contain pool members) fed to ONE simplifier in a clone of ONE context that already holds the whole pool, for the sparse and the dense cache; the last result must equal the result of a fresh simplifier in the same context (reference), of a fresh simplifier in a pristine clone (structure; reference for nodes of the pool context), be a fixed point of the same instance, and agree call by call between the cache kinds. (i) every call runs under a watchdog (deadline max(5 s, 100 x slowest observed call), confirmed by a second run). Terms/histories on which simplify panics are skipped and counted. states = distinct history prefixes, transitions = simplify calls inside histories, traces_validated_against_impl = histories compared; evaluations = terms of the sweep + histories; distinct_nontrivial = distinct sweep terms that the simplifier rewrites + distinct histories (length >= 2) whose last term is rewritten by the baseline".into();
+    rep.rule = "(ii)(iv) the C01 term space (T1/T2(/T3), stages listed under coverage.stages): per term Simplifier(sparse) result r; same instance and fresh instances (sparse, dense) must map r to r; Simplifier(dense) in an identically built context and simplify_single_expression must return the same reference r. (iii) histories: all ordered sequences of <= 2 (quick) / 3 (thorough) terms from a pool (every T1 term over two 4-bit symbols without literals and div/rem, plus T2 terms and rule-bearing combinations that contain pool members) fed to ONE simplifier in a clone of ONE context that already holds the whole pool, for the sparse and the dense cache; the last result must equal the result of a fresh simplifier in the same context (reference), of a fresh simplifier in a pristine clone (structure; reference for nodes of the pool context), be a fixed point of the same instance, and agree call by call between the cache kinds. (v) child/parent pairs: every rewritten T2 child x every one-operator parent (also with a non-leaf sibling): one simplifier that saw the child first must agree with a fresh one on the parent. (vi) depth: five chain patterns (1-bit add under implies/not, not, and-with-ones, ite with equal branches, slice of zero-extension) nested 1000 and 70000 times (thorough: up to 300000), sparse and dense cache: the result must be a fixed point of the same and of a fresh simplifier, must not depend on having simplified the half-depth sub-chain first, and must return within 180 s. (i) every call runs under a watchdog (deadline max(5 s, 100 x slowest observed call), confirmed by a second run). Terms/histories on which simplify panics are skipped and counted. states = distinct history prefixes, transitions = simplify calls inside histories, traces_validated_against_impl = histories compared; evaluations = terms of the sweep + histories; distinct_nontrivial = distinct sweep terms that the simplifier rewrites + distinct histories (length >= 2) whose last term is rewritten by the baseline".into();
     rep.assumptions = vec![
         "termination is bounded observation: a call is reported only when it exceeds the deadline twice".into(),
         "references of different contexts are compared only for identically built contexts with identical call sequences, otherwise structure is compared".into(),
         "terms on which the simplifier panics (baa todo!()/overflow above 64 bits) are C01's and skipped here".into(),
     ];
+}
+
+// ------------------------------------------------------------------------------------ deep chains
+
+const DEEP_PATTERNS: [&str; 5] = ["add1-under-implies", "not4", "and-ones4", "ite-same4", "slice-zext4"];
+
+/// builds the n-fold chain of a pattern iteratively; returns (root, the root of the n/2-fold chain)
+fn deep_chain(ctx: &mut Context, pat: usize, n: usize) -> (ExprRef, ExprRef) {
+    let c = ctx.bv_symbol("c", 1);
+    let (x, y) = if pat == 0 { (ctx.bv_symbol("x", 1), ctx.bv_symbol("y", 1)) } else { (ctx.bv_symbol("x", 4), ctx.bv_symbol("y", 4)) };
+    let ones = ctx.ones(4);
+    let mut e = x;
+    let mut half = x;
+    for i in 0..n {
+        e = match pat {
+            0 => ctx.add(e, if i % 2 == 0 { y } else { x }),
+            1 => ctx.not(e),
+            2 => ctx.and(e, ones),
+            3 => ctx.ite(c, e, e),
+            _ => {
+                let z = ctx.zero_extend(e, 1);
+                ctx.slice(z, 3, 0)
+            }
+        };
+        if i + 1 == n / 2 {
+            half = e;
+        }
+    }
+    if pat == 0 {
+        let nc = ctx.not(c);
+        (ctx.implies(nc, e), half)
+    } else {
+        (e, half)
+    }
+}
+
+/// idempotence and cache transparency on one deep chain (raw simplifiers: these long calls must not
+/// stretch the watchdog's deadline for the term sweeps)
+fn check_deep(pat: usize, n: usize, kind: Kind) -> Option<(String, String)> {
+    let raw = |ctx: &mut Context, s: &mut Simp, e: ExprRef| s.real(ctx, e);
+    let mut ctx = Context::default();
+    let (e, half) = deep_chain(&mut ctx, pat, n);
+    let mut s1 = Simp::new(kind);
+    let r1 = raw(&mut ctx, &mut s1, e);
+    let r1b = raw(&mut ctx, &mut s1, r1);
+    let name = DEEP_PATTERNS[pat];
+    if r1b != r1 {
+        return Some(("deep-idempotence-same-instance".into(), format!("{name} chain of depth {n} ({kind:?} cache): the result {r1:?} of simplify is simplified further to {r1b:?} by the same simplifier")));
+    }
+    let r2 = raw(&mut ctx, &mut Simp::new(kind), r1);
+    if r2 != r1 {
+        return Some(("deep-idempotence-fresh-instance".into(), format!("{name} chain of depth {n} ({kind:?} cache): the result {r1:?} of simplify is simplified further to {r2:?} by a fresh simplifier")));
+    }
+    let mut s3 = Simp::new(kind);
+    let _ = raw(&mut ctx, &mut s3, half);
+    let r3 = raw(&mut ctx, &mut s3, e);
+    if r3 != r1 {
+        return Some(("deep-cache-history".into(), format!("{name} chain of depth {n} ({kind:?} cache): a fresh simplifier returns {r1:?}, one that has simplified the depth-{} sub-chain before returns {r3:?}", n / 2)));
+    }
+    let r4 = raw(&mut ctx, &mut Simp::new(kind), e);
+    if r4 != r1 {
+        return Some(("deep-nondeterministic".into(), format!("{name} chain of depth {n} ({kind:?} cache): two fresh simplifiers return {r1:?} and {r4:?}")));
+    }
+    None
+}
+
+fn deep_sizes(thorough: bool) -> Vec<usize> {
+    if thorough { vec![1000, 20_000, 70_000, 140_000, 300_000] } else { vec![1000, 70_000] }
+}
+
+fn run_deep(rep: &Report, thorough: bool) {
+    let mut cases = vec![];
+    for pat in 0..DEEP_PATTERNS.len() {
+        for n in deep_sizes(thorough) {
+            for kind in [Kind::Sparse, Kind::Dense] {
+                cases.push((pat, n, kind));
+            }
+        }
+    }
+    cases.par_iter().enumerate().for_each(|(ci, (pat, n, kind))| {
+        let (pat, n, kind) = (*pat, *n, *kind);
+        let r = with_deadline(move || catch(move || check_deep(pat, n, kind)), Duration::from_secs(180));
+        rep.add("deep_chains", 1);
+        rep.max("deepest_chain", n as u64);
+        rep.distinct_hashes(&[hash64(&format!("deep|{pat}|{n}|{kind:?}"))]);
+        let f = match r {
+            None => Some(("nontermination".to_string(), format!("{} chain of depth {n} ({kind:?} cache): simplify did not return within 180 s", DEEP_PATTERNS[pat]))),
+            Some(Err(p)) => Some((format!("deep-panic|{}", p.file()), format!("{} chain of depth {n}: panic {} ({})", DEEP_PATTERNS[pat], p.msg, p.short_loc()))),
+            Some(Ok(f)) => f,
+        };
+        if let Some((class, what)) = f {
+            rep.violation(Violation { sig: format!("C13|{class}|deep:{}|{}|", DEEP_PATTERNS[pat], if n > 65_536 { "n>65536" } else { "n<=65536" }), what, case: json!({"kind": "deep", "pattern": pat, "n": n, "cache": format!("{kind:?}")}), order: (1u64 << 60) + ci as u64 });
+        }
+    });
 }
 
 pub fn run(opts: &Opts, rep: &Report) {
@@ -836,6 +930,8 @@ pub fn run(opts: &Opts, rep: &Report) {
         });
         done.store(true, Ordering::Relaxed);
     });
+    run_deep(rep, tier.is_thorough());
+    rep.add("evaluations", rep.get("deep_chains"));
     rep.add("evaluations", rep.get("histories"));
     rep.add("simplify_calls", CALLS.load(Ordering::Relaxed));
     rep.max("slowest_call_us", SLOWEST_NS.load(Ordering::Relaxed) / 1000);
@@ -872,6 +968,13 @@ pub fn replay(case: &Value, rep: &Report) {
             if let (Some((class, what)), _, _) = history_check(&pool, &bl, &idx) {
                 let last = &pool.terms[*idx.last().unwrap()];
                 out.push(Violation { sig: format!("C13|{}|{}|{}|len{}", class, sig_shape(last), wclass(operand_width(last)), idx.len()), what, case: case2.clone(), order: 0 });
+            }
+        } else if kind == "deep" {
+            let pat = case2["pattern"].as_u64().unwrap_or(0) as usize;
+            let n = case2["n"].as_u64().unwrap_or(0) as usize;
+            let k = if case2["cache"] == "Dense" { Kind::Dense } else { Kind::Sparse };
+            if let Some((class, what)) = check_deep(pat, n, k) {
+                out.push(Violation { sig: format!("C13|{class}|deep:{}|{}|", DEEP_PATTERNS[pat], if n > 65_536 { "n>65536" } else { "n<=65536" }), what, case: case2.clone(), order: 0 });
             }
         } else if kind == "child-parent" {
             let c = parse_t(case2["child"].as_str().expect("child")).expect("parse child");
